@@ -1,23 +1,9 @@
 // stubs.cpp -- stands in for a component translation unit that does not compile against the tree under test
-// (compiled once per failed unit with -DSTUB_<UNIT>; does not include any multitensor header).  Every case of the component
+// (compiled once per failed unit with -DSTUB_<UNIT>).  Every case of the component
 // answers `<prefix> <id> UNAVAILABLE <component>`: the checks then know that the correspondence component could not be run.
-#include <ostream>
-#include <string>
-#include <vector>
-#include <stdexcept>
+#include "common.hpp"
 namespace vh
 {
-struct Toks
-{
-    std::vector<std::string> t;
-    size_t p = 0;
-    const std::string &tok()
-    {
-        if (p >= t.size())
-            throw std::runtime_error("harness: out of tokens");
-        return t[p++];
-    }
-};
 static void unavailable(Toks &tk, std::ostream &os, const char *prefix, const char *unit)
 {
     os << prefix << " " << tk.tok() << " UNAVAILABLE " << unit << "\n";
@@ -26,7 +12,10 @@ static void unavailable(Toks &tk, std::ostream &os, const char *prefix, const ch
 void do_graph(Toks &tk, std::ostream &os) { unavailable(tk, os, "G", "comp_graph"); }
 #endif
 #ifdef STUB_COMP_UPD
-void do_upd(Toks &tk, std::ostream &os) { unavailable(tk, os, "U", "comp_upd"); }
+// the UPD component has a second implementation through the public entry point and the hooks (harness/upd_public.cpp): the composed
+// sweep only.  (Toks is layout-compatible with the harness's: same two members.)
+void do_upd_public(Toks &tk, std::ostream &os);
+void do_upd(Toks &tk, std::ostream &os) { do_upd_public(tk, os); }
 #endif
 #ifdef STUB_COMP_LAYOUT
 void do_layout(Toks &tk, std::ostream &os) { unavailable(tk, os, "L", "comp_layout"); }
